@@ -1191,6 +1191,10 @@ func ruleC13Codec(c *Ctx) {
 				}
 			}
 		}
+		// ... or appended outright (binary.AppendUvarint grows the destination as needed)
+		if hasCall(enc, "encoding/binary", "AppendUvarint") && !hasCall(enc, "encoding/binary", "PutUvarint") {
+			okBuf = true
+		}
 		c.Check(okBuf, "C13.CODEC", "boltz.EncodeByteSlice: prefix room", p.Pos(enc.Pos()), fmt.Sprintf("the buffer reserves at least %d byte(s) for the uvarint length prefix", need), whyBuf)
 	}
 	// every PutUvarint in the package writes into a buffer whose room for the prefix is evident
@@ -1244,7 +1248,7 @@ func ruleC13Codec(c *Ctx) {
 			}
 		}
 	}
-	c.Check(hasCall(enc, "encoding/binary", "PutUvarint") && hasCall(dec, "encoding/binary", "Uvarint"), "C13.CODEC", "boltz compound key: varint pair", p.Pos(enc.Pos()), "encoder writes the length with PutUvarint, decoder reads it with Uvarint", "length prefix encoder/decoder primitives do not match")
+	c.Check((hasCall(enc, "encoding/binary", "PutUvarint") || hasCall(enc, "encoding/binary", "AppendUvarint")) && hasCall(dec, "encoding/binary", "Uvarint"), "C13.CODEC", "boltz compound key: varint pair", p.Pos(enc.Pos()), "encoder writes the length with PutUvarint/AppendUvarint, decoder reads it with Uvarint", "length prefix encoder/decoder primitives do not match")
 	c.Check(boundUsed(enc) && boundUsed(dec), "C13.CODEC", "boltz compound key: shared bound", p.Pos(dec.Pos()), "both sides compare against MaxLinkedSetKeySize", "encoder and decoder do not enforce the same MaxLinkedSetKeySize bound")
 	// slices in DecodeNext are dominated by the tests that make them in-bounds
 	fi := ComputeFacts(dec)
